@@ -292,6 +292,7 @@ type runner struct {
 	crashed  bool
 	crashMsg string
 	wedged   bool
+	blocked  bool
 	opidx    int
 	fed      int
 	out      *bufio.Writer
@@ -349,7 +350,7 @@ func (r *runner) waitIdle() {
 	select {
 	case <-r.be.idle:
 	case <-r.done:
-	case <-time.After(10 * time.Second):
+	case <-time.After(4 * time.Second):
 		r.wedged = true
 	}
 }
@@ -583,6 +584,9 @@ func runCases(in io.Reader, out io.Writer) {
 			r.start()
 		case 101:
 		case 110:
+			if r.blocked {
+				continue
+			}
 			if r.crashed || r.wedged {
 				// keep printing the frozen state so records stay aligned
 			} else {
@@ -597,8 +601,13 @@ func runCases(in io.Reader, out io.Writer) {
 				fmt.Fprintf(w, "P %s %d %s\n", r.hdr.id, r.opidx-1, p)
 			}
 		case 111:
+			if r.blocked {
+				continue
+			}
 			if !(r.crashed || r.wedged) {
-				func() {
+				done := make(chan struct{})
+				go func() {
+					defer close(done)
 					defer func() {
 						if e := recover(); e != nil {
 							r.crashed = true
@@ -607,6 +616,14 @@ func runCases(in io.Reader, out io.Writer) {
 					}()
 					r.vt.Terminal().Resize(nums[1], nums[2])
 				}()
+				select {
+				case <-done:
+				case <-time.After(1500 * time.Millisecond):
+					// the loop holds the lock while it waits for the rest of an escape sequence
+					r.blocked = true
+					fmt.Fprintf(w, "X blocked Resize did not return: terminal lock held by the read loop\n")
+					continue
+				}
 			}
 			for _, p := range r.observe() {
 				fmt.Fprintf(w, "P %s %d %s\n", r.hdr.id, r.opidx-1, p)
@@ -614,6 +631,7 @@ func runCases(in io.Reader, out io.Writer) {
 		case 199:
 			r.stop()
 			r = nil
+			w.Flush()
 		}
 	}
 	_ = os.Stdout
